@@ -61,6 +61,8 @@ mut('C03', 'residual-drops-tau', 'pySDC/core/sweeper.py', '            if L.tau[
 # ---------------------------------------------------------------------------------------------------------------- C04
 mut('C04', 'spread-predictor-copies-zero', 'pySDC/core/sweeper.py', "                L.u[m] = P.dtype_u(L.u[0])\n                L.f[m] = P.dtype_f(L.f[0])", "                L.u[m] = P.dtype_u(init=P.init, val=0.0)\n                L.f[m] = P.dtype_f(init=P.init, val=0.0)")
 mut('C04', 'endpoint-weights-shifted', SW + 'generic_implicit.py', 'L.uend += L.dt * self.coll.weights[m] * L.f[m + 1]', 'L.uend += L.dt * self.coll.weights[m - 1] * L.f[m + 1]')
+mut('C04', 'revert-F26-rkn-stage-time', SW + 'Runge_Kutta_Nystrom.py', 'L.f[m + 1] = P.eval_f(L.u[m + 1], L.time + L.dt * self.coll.nodes[m + 1])', 'L.f[m + 1] = P.eval_f(L.u[m + 1], L.time + L.dt * self.coll.nodes[m])')
+mut('C04', 'rkn-weight-perturbed', SW + 'Runge_Kutta_Nystrom.py', 'weights_bar = np.array([1.0, 1.0, 1.0, 0]) / 6.0', 'weights_bar = np.array([1.0, 1.0, 1.001, 0]) / 6.0')
 # ---------------------------------------------------------------------------------------------------------------- C05
 mut('C05', 'Q-transposed', 'pySDC/core/collocation.py', 'Q[1:, 1:] = self.generator.Q', 'Q[1:, 1:] = self.generator.Q.T')
 mut('C05', 'S-from-generator', 'pySDC/core/collocation.py', 'S[1:, 1:] = super(self.generator.__class__, self.generator).S', 'S[1:, 1:] = self.generator.S')
